@@ -65,7 +65,7 @@ def patch_variants(pids=None):
     for pid in want:  # whole-tree transformations: every local variable (and every nested function) renamed
         out.append(dict(id=f"{pid}-transform-rename-locals", pid=pid, transform="rename_locals", file="rex/**", old="", new="", expect="silent", rule=None))
         out.append(dict(id=f"{pid}-transform-rename-locals-and-nested-defs", pid=pid, transform="rename_locals_defs", file="rex/**", old="", new="", expect="silent", rule=None))
-        for tr in ("swap_comparisons", "ifexp_to_if", "de_morgan"):
+        for tr in ("swap_comparisons", "ifexp_to_if", "de_morgan", "add_noise"):
             out.append(dict(id=f"{pid}-transform-{tr}", pid=pid, transform=tr, file="rex/**", old="", new="", expect="silent", rule=None))
     d = os.path.join(VERIF, "seeded")
     if os.path.isdir(d):
